@@ -950,26 +950,59 @@ func c10DumpHeader(ru *fw.Rule, p *fw.Program, dump *ssa.Function, env *fw.PolyE
 	}
 	// the label must be exactly one cell (2 characters) wide: PadFormatInt only pads, so either the
 	// label is cut to its last 2 characters or LineBytes <= Addrbase^2 is established
-	var hexOp, asciiOp ssa.Value
-	if hc.Referrers() != nil {
+	// tailOf: v is x[len(x)-k:] ; returns x
+	tailOf := func(v ssa.Value, k int64) ssa.Value {
+		sl, ok := v.(*ssa.Slice)
+		if !ok || sl.High != nil || sl.Low == nil {
+			return nil
+		}
+		sub, ok := sl.Low.(*ssa.BinOp)
+		if !ok || sub.Op != token.SUB {
+			return nil
+		}
+		if c, ok := c10ConstInt(sub.Y); !ok || c != k {
+			return nil
+		}
+		ln, ok := sub.X.(*ssa.Call)
+		if !ok || !fw.IsBuiltinCall(ln, "len") || ln.Call.Args[0] != sl.X {
+			return nil
+		}
+		return sl.X
+	}
+	appended := func(v ssa.Value) bool { // v is the right operand of a string concatenation
+		if v.Referrers() == nil {
+			return false
+		}
+		for _, rf := range *v.Referrers() {
+			if bo, ok := rf.(*ssa.BinOp); ok && bo.Op == token.ADD && bo.Y == v {
+				return true
+			}
+		}
+		return false
+	}
+	// the hex label: the PadFormatInt result itself, or its last two characters
+	var hexOp ssa.Value
+	if appended(hc) {
+		hexOp = hc
+	} else if hc.Referrers() != nil {
 		for _, rf := range *hc.Referrers() {
-			switch x := rf.(type) {
-			case *ssa.BinOp:
-				if x.Op == token.ADD {
-					hexOp = hc
-				}
-			case *ssa.Slice:
-				if x.High == nil && x.Low != nil {
-					lo := env.Of(x.Low)
-					if len(lo.T) == 2 && lo.Const() == -1 {
-						asciiOp = x
-					} else if lo.Const() == -2 {
-						hexOp = x
-					}
-				}
+			if sl, ok := rf.(*ssa.Slice); ok && tailOf(sl, w) == ssa.Value(hc) && appended(sl) {
+				hexOp = sl
 			}
 		}
 	}
+	// the ascii label: the last character of the hex label. The label is a suffix of the
+	// PadFormatInt result, so the last character of either is the same character.
+	var asciiOp ssa.Value
+	fw.EachInstr(dump, func(ins ssa.Instruction) {
+		sl, ok := ins.(*ssa.Slice)
+		if !ok || !appended(sl) {
+			return
+		}
+		if x := tailOf(sl, 1); x != nil && hexOp != nil && (x == hexOp || x == ssa.Value(hc)) {
+			asciiOp = sl
+		}
+	})
 	exact := false
 	if _, isSlice := hexOp.(*ssa.Slice); isSlice {
 		exact = true
